@@ -121,6 +121,7 @@ void Engine::setup_bus() {
 	for (size_t i = 0; i < dat.size(); i++) bus.drop_answer_types.insert((int) dat[i].num());
 	const J &tdl = b["type_delays"];
 	for (size_t i = 0; i < tdl.size(); i++) bus.type_delays[(int) tdl[i][0].num()] = {(uint64_t) tdl[i][1].num(), (uint64_t) tdl[i][2].num() * 1000};
+	bus.restart_count_real = b.getb("restart_count_real", false);
 	const J &tdu = b["type_dup_once"];
 	for (size_t i = 0; i < tdu.size(); i++) bus.type_dup_once.push_back({(uint64_t) tdu[i][0].num(), (uint64_t) tdu[i][1].num(), (uint64_t) tdu[i][2].num()});
 	const J &tdo = b["type_delay_once"];
